@@ -142,6 +142,15 @@ func VC03_adders() {
 	vrt.MaxPreempt = vrt.Param("preempt", 2)
 	vrt.RunThreads()
 	s.final(f, base+sum)
+	c3after(s, f, base+sum)
+}
+
+// c3after: once everything has settled, one more increment from a caller that was not
+// involved: it must neither fault (a stale pointer published during the race would make
+// it write through an unmapped view) nor get lost.
+func c3after(s *c3state, f *file, total int64) {
+	s.c.Add(1)
+	s.final(f, total+1)
 }
 
 func c3run(f *file, s *c3state, base int64, env func()) {
@@ -159,6 +168,7 @@ func c3run(f *file, s *c3state, base int64, env func()) {
 	vrt.MaxPreempt = vrt.Param("preempt", 2)
 	vrt.RunThreads()
 	s.final(f, base+sum)
+	c3after(s, f, base+sum)
 }
 
 // VC03_open: Adds racing with the first opening of the counter file.
